@@ -35,9 +35,44 @@ class ArgNet(torch.nn.Module):
         return self.net(X) + torch.tanh(a.to(torch.float64) @ self.Wa)
 
 
+def maxpool_near_tie(ref_model, seqs, rtol=1e-9):
+    """True when, for some of the given sequences, some window of some MaxPool1d layer holds two positions whose values agree to
+    within rtol.  There the DeepLIFT max-pool rule is discontinuous (all of the window's contribution goes to whichever position
+    is the arg max), and torch's own convolution is not bit-for-bit batch-invariant - the same window can differ in the last bit
+    between a batch of 2 and a batch of 4 - so two batchings may legitimately break the tie differently."""
+    found = []
+
+    def hook(module, inp, out):
+        v = inp[0].detach().double()
+        k, s_, p_, d_ = (module.kernel_size, module.stride or module.kernel_size, module.padding, module.dilation)
+        k, s_, p_, d_ = [a[0] if isinstance(a, (tuple, list)) else a for a in (k, s_, p_, d_)]
+        Lin = v.shape[-1]
+        pos = torch.arange(out.shape[-1])[:, None] * s_ - p_ + torch.arange(k)[None, :] * d_          # (n_out, k)
+        ok = (pos >= 0) & (pos < Lin)
+        padded = torch.cat([v, torch.full(v.shape[:-1] + (1,), float("-inf"), dtype=v.dtype)], dim=-1)
+        win = padded[..., torch.where(ok, pos, torch.full_like(pos, Lin))]                              # (..., n_out, k)
+        if win.shape[-1] < 2:
+            return
+        top = win.topk(2, dim=-1).values
+        gap = top[..., 0] - top[..., 1]
+        if bool((gap <= rtol * (1 + top[..., 0].abs())).any()):
+            found.append(True)
+
+    handles = [m.register_forward_hook(hook) for m in ref_model.modules() if isinstance(m, torch.nn.MaxPool1d)]
+    try:
+        with torch.no_grad():
+            ref_model.eval()
+            ref_model(seqs.double())
+    finally:
+        for h in handles:
+            h.remove()
+    return bool(found)
+
+
 def invariance_case(case, ctx):
     arch = case["arch"]
     model = nets.build(arch, case["seed"])
+    tie_model = nets.pristine(model)       # judged separately from the model handed to the function
     X = nets.one_hot(case["X"])
     n, L = X.shape[0], X.shape[2]
     args = None
@@ -83,7 +118,14 @@ def invariance_case(case, ctx):
         require(tuple(Ab.shape) == tuple(A0[rows].shape), "shape-differs-" + what, lambda: "%s vs %s" % (tuple(Ab.shape), tuple(A0[rows].shape)))
         if not torch.allclose(Ab.double(), A0[rows].double(), rtol=1e-9, atol=1e-12):
             d = (Ab - A0[rows]).abs()
-            ex = int(d.reshape(len(rows), -1).max(dim=1).values.argmax())
+            per = d.reshape(len(rows), -1).max(dim=1).values
+            ex = int(per.argmax())
+            scale = A0[rows].double().abs().reshape(len(rows), -1).max(dim=1).values
+            off = [i for i in range(len(rows)) if per[i] > 1e-12 + 1e-9 * scale[i]] or [ex]
+            if all(maxpool_near_tie(tie_model, torch.cat([X[rows[i]][None], R0[rows[i]].double()])) for i in off):
+                # not decidable: every differing example has a max-pooling window with an exact (or last-bit) tie - see DESIGN 10
+                ctx.label("maxpool_tie_ill_conditioned")
+                return
             raise Violation("attributions-differ-" + what, "%s: %s: example %d differs by %.3g" % (desc, what, rows[ex], d.max().item()))
 
     if case.get("override_between"):
